@@ -302,10 +302,18 @@ func (e *Engine) runInits(st *State, pkg *ssa.Package) {
 func discharge(pool *SolverPool, hr *HarnessResult, workers, timeoutMs int, dumpDir, second string) {
 	// term construction is single-threaded: build all assert lists first
 	asserts := map[*Obligation][]*Term{}
+	sliced := map[*Obligation][]*Term{}
 	for _, o := range hr.Obligations {
 		as := append([]*Term(nil), o.pc...)
 		if o.Kind != "reach" {
-			as = append(as, Not(o.goal))
+			ng := Not(o.goal)
+			as = append(as, ng)
+			// cone of influence: conjuncts unrelated to the goal are dropped for a
+			// first attempt in which only unsat is accepted
+			sl := append(slicePC(o.pc, ng), ng)
+			if len(sl) < len(as) {
+				sliced[o] = sl
+			}
 		}
 		asserts[o] = as
 	}
@@ -336,7 +344,15 @@ func discharge(pool *SolverPool, hr *HarnessResult, workers, timeoutMs int, dump
 				if hit {
 					r = *cr
 				} else {
-					r = pool.Solve(as, timeoutMs, defaultPortfolio)
+					if sl, ok := sliced[o]; ok {
+						r = pool.Solve(sl, timeoutMs, defaultPortfolio)
+						if r.Verdict == Unsat {
+							r.Solver += "+sliced"
+						}
+					}
+					if r.Verdict != Unsat || sliced[o] == nil {
+						r = pool.Solve(as, timeoutMs, defaultPortfolio)
+					}
 					mu.Lock()
 					cache[key] = &r
 					mu.Unlock()
